@@ -554,7 +554,7 @@ func main() {
 		fmt.Printf("%s concurrency %-70s schedules=%d complete=%v (preemptions<=%d)\n", *prop, sc.name, execs, complete, pb)
 	}
 	side.Outcomes = len(traces)
-	out := filepath.Join(vcommon.Dir(), ".work", "conc-"+*prop+".json")
+	out := vcommon.ConcSide(*prop)
 	body, _ := json.MarshalIndent(side, "", " ")
 	_ = os.MkdirAll(filepath.Dir(out), 0o755)
 	_ = os.WriteFile(out, body, 0o644)
